@@ -23,6 +23,7 @@ type Promise struct {
 	cutParent *Promise
 	repeat    bool
 	recover   func(error) *Promise
+	exitOf    *Promise
 }
 
 // Delay delays an execution of k.
@@ -71,6 +72,15 @@ func catch(recover func(error) *Promise, k func(context.Context) *Promise) *Prom
 	return &Promise{
 		delayed: []func(context.Context) *Promise{k},
 		recover: recover,
+	}
+}
+
+// exit returns a promise that marks the exit of the goal of the catching promise of.
+// Errors raised while k is executed are not handled by of since its goal is no longer being executed.
+func exit(of *Promise, k func(context.Context) *Promise) *Promise {
+	return &Promise{
+		delayed: []func(context.Context) *Promise{k},
+		exitOf:  of,
 	}
 }
 
@@ -155,9 +165,15 @@ func (s *promiseStack) popUntil(p *Promise) {
 
 func (s *promiseStack) recover(err error) error {
 	// look for an ancestor promise with a recovering function that is applicable to the error.
+	var exited []*Promise
 	for len(*s) > 0 {
 		pop := s.pop()
-		if pop.recover == nil {
+		if pop.exitOf != nil {
+			// The error was raised after the goal of pop.exitOf had exited.
+			exited = append(exited, pop.exitOf)
+			continue
+		}
+		if pop.recover == nil || containsPromise(exited, pop) {
 			continue
 		}
 		if q := pop.recover(err); q != nil {
@@ -168,4 +184,13 @@ func (s *promiseStack) recover(err error) error {
 
 	// went through all the ancestor promises and still got the unhandled error.
 	return err
+}
+
+func containsPromise(ps []*Promise, p *Promise) bool {
+	for _, e := range ps {
+		if e == p {
+			return true
+		}
+	}
+	return false
 }
